@@ -108,12 +108,15 @@ def dereifyAgenda (m : Model) (g : Graph) : Except PyErr (List Agenda) := do
         | .ok (src, role, tgt) =>
           match src with
           | .str s =>
-            let e1 : List Epi := match AList.get? alns inst0 with
-              | some (.aln p i) => [.roleAln p i]
-              | _ => []
-            let e2 := ((AList.get? g.epidata tSecond).getD []).filter fun | .roleAln _ _ => false | _ => true
-            pure (acc ++ [⟨var, tFirst, ⟨s, role, tgt⟩, e1 ++ e2⟩])
-          | _ => throw (.unmodelled "dereified triple with a non-string source")
+            -- fix F20: `if dereified[0] not in variables: continue`
+            if s ∈ g.variables then
+              let e1 : List Epi := match AList.get? alns inst0 with
+                | some (.aln p i) => [.roleAln p i]
+                | _ => []
+              let e2 := ((AList.get? g.epidata tSecond).getD []).filter fun | .roleAln _ _ => false | _ => true
+              pure (acc ++ [⟨var, tFirst, ⟨s, role, tgt⟩, e1 ++ e2⟩])
+            else pure acc
+          | _ => pure acc     -- a non-string source is never a variable
       else pure acc
     | _ => pure acc
   inst.foldlM step []
